@@ -119,6 +119,27 @@ def validate(traces, conf, workdir, workers=None, timeout=3600, name='T'):
 
   Returns (verdicts, tlcresult): verdicts[i] = ('ok', len) | (clause, position) for trace i (0-based).
   """
+  # an observed state the model cannot even express (duplicate ids, ids beyond the bound, unknown metadata entries) is a
+  # divergence at that event without asking TLC: the trace is cut there
+  def wellformed(st):
+    try:
+      for row in st['trial'].values():
+        if len(row) != conf['MaxId']:
+          return False
+        for t in row:
+          if 'absent' not in t and (set(t) != {'state', 'client', 'params', 'meas', 'final', 'reason', 'meta'} or '_extra' in t['meta']):
+            return False
+      return all('absent' in v or '_extra' not in v['meta'] for v in st['study'].values())
+    except Exception:  # pylint: disable=broad-except
+      return False
+  cut = {}
+  full = traces
+  traces = []
+  for i, tr in enumerate(full):
+    k = next((j for j, e in enumerate(tr) if not wellformed(e['post']) or str(e['resp'].get('err', '')).startswith('Unknown:')), None)
+    if k is not None:
+      cut[i] = k
+    traces.append(tr if k is None else tr[:k])
   path = os.path.join(workdir, name + '.traces.json')
   with open(path, 'w') as f:
     json.dump(traces, f)
@@ -136,7 +157,11 @@ def validate(traces, conf, workdir, workers=None, timeout=3600, name='T'):
   verdicts = []
   for i, tr in enumerate(traces):
     l, v = reach.get(i + 1, (0, 'unreached'))
-    if v == 'ok' and l == len(tr) + 1:
+    if not tr and i in cut:
+      l, v = 1, 'ok'           # nothing left to validate before the ill-formed event
+    if v == 'ok' and l == len(tr) + 1 and i in cut:
+      verdicts.append(('A_state', cut[i] + 1))     # the prefix is fine; the event at cut[i] is the ill-formed one
+    elif v == 'ok' and l == len(tr) + 1:
       verdicts.append(('ok', len(tr)))
     elif v == 'ok':
       raise tlc.MachineryError('trace %d stopped at %d/%d without a verdict' % (i, l, len(tr)))
